@@ -122,16 +122,52 @@ def random_cases(rng, nschemas, nvalues, depth=3):
     return out
 
 
+def rpc_cases(chk, cache):
+    """the rpc wrapper structs (<Payload>Input / <Payload>Output with the ServiceId / <Service>MethodId enums) that
+    fcp_cpp.rpc.generate_rpc adds to a schema with services, as cases for the Python codec: the schema object is the one
+    generate_rpc returns (its enums are extended AFTER construction), the expectation is TLC's (Rpc.tla, Gen_Rpc)"""
+    from fcp_cpp.rpc import generate_rpc
+    from .chk_layout import abs_for_text
+    res = tlc.run("Gen_Rpc", workdir=chk.workdir, env={}, timeout=900, heap="2g")
+    chk.add_tlc(res, "Gen_Rpc")
+    out = []
+    for so in [o for o in res.out if o["kind"] == "schema"]:
+        base = abs_for_text(glue.strip_gen(so["schema"]))
+        ext = abs_for_text(glue.strip_gen(so["extended"]))
+        ext = {"structs": ext["structs"], "enums": ext["enums"]}
+        try:
+            fcp = generate_rpc(pycodec.parse_schema(base)[0])
+        except Exception as e:
+            raise core.Machinery("generate_rpc failed on a Gen_Rpc schema: %s: %s" % (type(e).__name__, e))
+        cache.put(ext, fcp)
+        for c in res.out:
+            if c["kind"] == "case" and c["services"] == so["schema"]["services"]:
+                out.append({"schema": ext, "root": c["struct"], "value": c["value"], "bytes": c["bytes"], "rpc": 1})
+    out.sort(key=lambda c: json.dumps([c["root"], c["value"]], sort_keys=True))
+    return out[::3]
+
+
 class SchemaCache:
     def __init__(self):
         self.c = {}
 
+    def put(self, sch, fcp):
+        """a schema object that cannot be rebuilt from the abstract schema: never evicted"""
+        self.pinned = getattr(self, "pinned", {})
+        self.pinned[json.dumps(sch, sort_keys=True)] = fcp
+
     def get(self, sch):
         key = json.dumps(sch, sort_keys=True)
+        if key in getattr(self, "pinned", {}):
+            return self.pinned[key]
         if key not in self.c:
             if len(self.c) > 4000:
                 self.c.clear()
-            self.c[key] = pycodec.parse_schema(sch)[0]
+            fcp = pycodec.parse_schema(sch)[0]
+            if len(self.c) % 2 == 1:
+                # every other schema object has been used by the other consumers of a parsed schema first
+                pycodec.exercise(fcp)
+            self.c[key] = fcp
         return self.c[key]
 
 
@@ -256,7 +292,7 @@ def run_c01(tier, seed):
             chk.sample({"schema": glue.schema_text(sch), "value": val, "encoded": enc})
     # (T) random executions judged by TLC
     n_s, n_v = (150, 4) if tier == "quick" else (2500, 6)
-    rc = random_cases(rng, n_s, n_v)
+    rc = random_cases(rng, n_s, n_v) + rpc_cases(chk, cache)
     events = []
     meta = {}
     for i, c in enumerate(rc):
@@ -353,7 +389,7 @@ def run_c02(tier, seed):
             chk.sample({"schema": glue.schema_text(sch), "value": val, "canonical_bytes": canon})
     # (T) random: encode events judged by TLC, then decode of TLC's canonical bytes, judged again
     n_s, n_v = (150, 4) if tier == "quick" else (2500, 6)
-    rc = random_cases(rng, n_s, n_v)
+    rc = random_cases(rng, n_s, n_v) + rpc_cases(chk, cache)
     events, meta = [], {}
     for i, c in enumerate(rc):
         fcp = cache.get(c["schema"])
@@ -431,7 +467,7 @@ def run_c16(tier, seed):
     ncase = 1200 if tier == "quick" else 12000
     cases = cases[:ncase]
     n_s, n_v = (60, 3) if tier == "quick" else (1200, 5)
-    rc = random_cases(rng, n_s, n_v)
+    rc = random_cases(rng, n_s, n_v) + rpc_cases(chk, cache)
     # oracle: canonical bytes and count-prefix offsets of the random cases
     req = [{"id": "q%d" % i, "kind": "enc", "schema": c["schema"], "root": c["root"], "value": c["value"],
             "ok": 1, "bytes": []} for i, c in enumerate(rc)]
